@@ -17,9 +17,9 @@ claim('C03',
 
 claim('C10',
       "Unbounded proof of the eight mpn logic functions and mpn_com (pointwise at an arbitrary ghost limb, every permitted overlap) and of "
-      "mpn_scan0/scan1 (first 0/1 bit at or after the start, all earlier bits have the other value, at a ghost bit position).",
-      " mpz_tstbit, mpz_scan0, mpz_scan1 against the infinite two's-complement limb function (ghost lowest-non-zero-limb index), incl. the 'no such "
-      "bit' answers; mpz_com as ~x = -x-1 on limb chains.",
+      "mpn_scan0/scan1 (first 0/1 bit at or after the start, all earlier bits have the other value, at a ghost bit position). mpz_tstbit, mpz_scan0, "
+      "mpz_scan1 against the infinite two's-complement limb function (ghost lowest-non-zero-limb index), incl. the 'no such bit' answers; mpz_com "
+      "as ~x = -x-1 on limb chains, all alias partitions.",
       TB + "NOT decided: the value returned by mpn_popcount/mpn_hamdist (SWAR adder tree: SAT time-out; only their memory safety, frame and "
       "termination are proved); mpz_and/ior/xor/setbit/clrbit/combit/popcount/hamdist: no unit. The ghost g_lz of the mpz units is defined by a "
       "forall that is instantiated by woven assumes at the limbs each loop iteration reads (listed in the evidence).")
